@@ -53,7 +53,7 @@ func NewSolver(ts *Terms, bin string, timeoutMs int) *Solver {
 func (s *Solver) start() {
 	args := []string{"-in"}
 	if strings.Contains(s.bin, "cvc5") {
-		args = []string{"--incremental", "--lang=smt2", "--produce-models"}
+		args = []string{"--incremental", "--lang=smt2", "--produce-models", fmt.Sprintf("--tlimit-per=%d", s.timeoutMs)}
 	}
 	s.cmd = exec.Command(s.bin, args...)
 	stdin, err := s.cmd.StdinPipe()
